@@ -4,10 +4,13 @@ LineWhitespace::{len, add, zero}; DecisionRequirement::map_can_break;
 RawDecision::with_continuation; Decision::to_raw;
 ReconstructionSettings::new (lengths of the three strings, for all u8 x u8).
 """
+import re
+
 import vxgen
 
 TYPES = 'core/src/rules/optimising_line_formatter/types.rs'
 LANG = 'core/src/lang.rs'
+FRONT = 'front-end/src/lib.rs'
 
 
 def build(u):
@@ -98,4 +101,39 @@ pub open spec fn all_bytes(s: Seq<u8>, b: u8) -> bool { forall|i: int| 0 <= i < 
     }''')
     u.fn(TYPES, r'^    pub\(super\) fn zero\(\)', name='LineWhitespace::zero', within_re=W2,
          ensures=['r.indentations == 0', 'r.continuations == 0'])
-    u.raw('}\n}\nfn main() {}\n}\n')
+    u.raw('}\n}\n')
+
+    # ---- front-end: user-facing settings -> widths and strings (C10: "a unit is one tab or tab_width spaces",
+    #      "continuation_indents x continuations", "saturation at the u8 boundary")
+    u.raw('''pub mod frontend {
+use vstd::prelude::*;
+use vstd::string::*;
+use vstd::utf8::*;
+use crate::lang::*;
+// D6t: types the conversion never inspects
+#[verifier::external_body] pub struct BeginStyle { _p: u8 }
+#[verifier::external_body] pub struct InternalEncoding { _p: u8 }
+// D12: `val.line_ending.into()` (From impl with cfg(windows) arms) replaced by a call of this stub; result unconstrained here
+#[verifier::external_body]
+fn line_ending_into(value: LineEnding) -> (r: crate::lang::LineEnding) { unimplemented!() }
+''')
+    u.assume('D12: `val.line_ending.into()` replaced by a stub with an unconstrained result (the front-end From<LineEnding> impl has cfg(windows) arms); '
+             'the newline string is covered by KX settings / recon, not here')
+    INNER_ATTRS = (re.compile(r'(?m)^[ \t]*#\[[^\]\n]*\]\n'), '', 'D1')
+    u.item(FRONT, r'^enum LineEnding \{', prefix='#[derive(Copy, Clone)]\n', name='enum LineEnding (front-end)', edits=[INNER_ATTRS])
+    u.item(FRONT, r'^pub struct FormattingConfig \{', pub_fields=True, name='struct FormattingConfig')
+    # D4: the trait method `From<&FormattingConfig>::from` re-emitted as a free function with the same body (Self spelled out)
+    u.fn(FRONT, r'^    fn from\(val: &FormattingConfig\) -> Self', name='ReconstructionSettings::from_FormattingConfig',
+         within_re=r'^impl From<&FormattingConfig> for ReconstructionSettings \{',
+         edits=[('fn from(val: &FormattingConfig) -> Self', 'fn reconstruction_settings_from(val: &FormattingConfig) -> ReconstructionSettings', 'D4'),
+                ('val.line_ending.into()', 'line_ending_into(val.line_ending)', 'D12')],
+         ensures=[
+             # one indentation unit is one tab, or tab_width spaces
+             'val.use_tabs ==> sS(r.indentation_str).len() == 1 && all_bytes(sS(r.indentation_str), 0x09)',
+             '!val.use_tabs ==> sS(r.indentation_str).len() == val.tab_width as int && all_bytes(sS(r.indentation_str), 0x20)',
+             # one continuation is continuation_indents units, saturating at 255 columns
+             'val.use_tabs ==> sS(r.continuation_str).len() == val.continuation_indents as int && all_bytes(sS(r.continuation_str), 0x09)',
+             '!val.use_tabs ==> all_bytes(sS(r.continuation_str), 0x20) && sS(r.continuation_str).len() == '
+             '(if val.continuation_indents as int * val.tab_width as int > 255 { 255int } else { val.continuation_indents as int * val.tab_width as int })',
+         ])
+    u.raw('}\nfn main() {}\n}\n')
